@@ -31,4 +31,9 @@ PROPS = {
         "trusted": ["JSON decoding and strconv.ParseInt are modelled from the decoded structure on (the harness applies ParseInt itself to produce the model's numbers)", "viper/pflag configuration loading of the binary", "badger"],
         "assumptions": ["icfg_fixed: the repaired import (per-field maxima, repeated keys accumulate, negative numbers rejected)"],
     },
+    "C11": {
+        "relation": "Corr.CheckExport.check_codec (raw record bytes = encode_att / encode_prop, and decode back), check_export (the binary's export = export_cmd), Corr.CheckImport.check_import (import of the export into an empty directory = import_cmd) - tie C11_export_faithful, C11_codec and C11_export_import_same_decisions to the code",
+        "trusted": ["Go's encoding/gob (legacy records): an oracle argument of the model; exercised with records produced by the real encoder", "JSON encoding of the export", "badger"],
+        "assumptions": ["op_wf histories (well-formed, fault-free), cfg_wf"],
+    },
 }
